@@ -280,6 +280,14 @@ class Run:
         known = known_findings(self.cid)
         nviol = 0
         lines = []
+        # a concrete failing input (not a known one) supersedes "broken obligation" reports: it is the replay
+        fresh = [f for f in self.findings if f["kind"] == "counterexample" and f["key"] not in known]
+        if fresh:
+            dropped = [f for f in self.findings if f["kind"] == "broken-obligation"]
+            if dropped:
+                self.notes.append("broken obligations subsumed by the counterexample(s): " + "; ".join(f["key"] for f in dropped))
+                fresh[0]["payload"] = dict(fresh[0]["payload"], broken_obligations=[f["what"][:300] for f in dropped])
+            self.findings = [f for f in self.findings if f["kind"] != "broken-obligation"]
         for f in self.findings:
             if f["kind"] == "counterexample" and f["key"] in known:
                 lines.append("KNOWN-FINDING: property=%s %s [%s]" % (self.cid, known[f["key"]], f["key"]))
